@@ -625,6 +625,95 @@ func leanPairList(xs [][2]string) string {
 	return "[" + strings.Join(q, ", ") + "]"
 }
 
+// memDecls: every function and method of package memory (receiver type "" for functions)
+var memDecls = map[[2]string]*ast.FuncDecl{}
+
+func tablePairs(fd *ast.FuncDecl, call *ast.CallExpr) ([][2]string, bool) {
+	helperName, ok := call.Fun.(*ast.Ident)
+	if !ok || len(call.Args) != 1 {
+		return nil, false
+	}
+	tcall, ok := call.Args[0].(*ast.CallExpr)
+	if !ok || len(tcall.Args) != 0 {
+		return nil, false
+	}
+	tsel, ok := tcall.Fun.(*ast.SelectorExpr)
+	if !ok {
+		return nil, false
+	}
+	if _, isIdent := tsel.X.(*ast.Ident); !isIdent {
+		return nil, false
+	}
+	helper, table := memDecls[[2]string{"", helperName.Name}], memDecls[[2]string{recvType(fd), tsel.Sel.Name}]
+	if helper == nil || table == nil || helper.Body == nil || table.Body == nil || len(helper.Body.List) != 1 || len(table.Body.List) != 1 {
+		return nil, false
+	}
+	// the helper: one range loop over its only parameter whose body is one copy(r.X, r.Y)
+	rs, ok := helper.Body.List[0].(*ast.RangeStmt)
+	if !ok || rs.Value == nil || len(rs.Body.List) != 1 || helper.Type.Params == nil || len(helper.Type.Params.List) != 1 || len(helper.Type.Params.List[0].Names) != 1 {
+		return nil, false
+	}
+	if id, ok := rs.X.(*ast.Ident); !ok || id.Name != helper.Type.Params.List[0].Names[0].Name {
+		return nil, false
+	}
+	es, ok := rs.Body.List[0].(*ast.ExprStmt)
+	if !ok {
+		return nil, false
+	}
+	cp, ok := es.X.(*ast.CallExpr)
+	if !ok || exprString(cp.Fun) != "copy" || len(cp.Args) != 2 {
+		return nil, false
+	}
+	rowField := func(e ast.Expr) (string, bool) {
+		s, ok := e.(*ast.SelectorExpr)
+		if !ok {
+			return "", false
+		}
+		id, ok := s.X.(*ast.Ident)
+		return s.Sel.Name, ok && id.Name == exprString(rs.Value)
+	}
+	dstF, ok1 := rowField(cp.Args[0])
+	srcF, ok2 := rowField(cp.Args[1])
+	if !ok1 || !ok2 {
+		return nil, false
+	}
+	// the table: `return <slice literal of keyed struct literals>`
+	ret, ok := table.Body.List[0].(*ast.ReturnStmt)
+	if !ok || len(ret.Results) != 1 {
+		return nil, false
+	}
+	lit, ok := ret.Results[0].(*ast.CompositeLit)
+	if !ok {
+		return nil, false
+	}
+	res := [][2]string{}
+	for _, e := range lit.Elts {
+		row, ok := e.(*ast.CompositeLit)
+		if !ok {
+			return nil, false
+		}
+		vals := map[string]string{}
+		for _, kv := range row.Elts {
+			k, ok := kv.(*ast.KeyValueExpr)
+			if !ok {
+				return nil, false
+			}
+			f, ok := fieldOf(k.Value)
+			if !ok {
+				return nil, false
+			}
+			vals[exprString(k.Key)] = f
+		}
+		d, ok1 := vals[dstF]
+		s, ok2 := vals[srcF]
+		if !ok1 || !ok2 {
+			return nil, false
+		}
+		res = append(res, [2]string{d, s})
+	}
+	return res, len(res) > 0
+}
+
 // copyPairs: `copy(r.A, r.B)` and `r.A = r.B` statements of a method, as (dst, src) field pairs
 func copyPairs(fd *ast.FuncDecl) ([][2]string, error) {
 	res := [][2]string{}
@@ -642,6 +731,12 @@ func copyPairs(fd *ast.FuncDecl) ([][2]string, error) {
 					return nil, fmt.Errorf("copy with non-field arguments in %s", fd.Name.Name)
 				}
 				res = append(res, [2]string{d, s})
+				continue
+			}
+			// table-driven form: helper(recv.table()) with helper = `for _, r := range t { copy(r.X, r.Y) }` and
+			// table = `return []T{{X: recv.a, Y: recv.b}, ...}` — the same copies, one per table row
+			if tp, ok := tablePairs(fd, call); ok {
+				res = append(res, tp...)
 				continue
 			}
 			// delegation p.mem.TakeSnapshot(): recorded as ("->", "<type of the field>.method")
@@ -836,6 +931,13 @@ func normDeleg(fd *ast.FuncDecl, fun ast.Expr) string {
 func doMemory(repo, outDir string) {
 	files := parseDir(filepath.Join(repo, "memory"))
 	collectStructFields(files)
+	for _, f := range files {
+		for _, d := range f.Decls {
+			if fd, ok := d.(*ast.FuncDecl); ok {
+				memDecls[[2]string{recvType(fd), fd.Name.Name}] = fd
+			}
+		}
+	}
 	collectZeroingHelpers(files)
 	type key struct{ typ, method string }
 	methods := map[key]*ast.FuncDecl{}
